@@ -744,6 +744,18 @@ def check_case(case, ctx):
             fresh = fresh_for(side, 'fresh', op)
             if op == 'call':
                 got = world.call(fa if side == 'a' else fb, arg)
+                if not case.get('circular'):
+                    # what the function published for node-less members of its
+                    # range inputs (into the model of its own side) is current
+                    from .c08 import published_stale
+                    stale = published_stale(
+                        a if side == 'a' else b, (fa if side == 'a' else fb)[0], desc,
+                        case['fn_inputs'], arg, ctx)
+                    if stale:
+                        ctx.violation('stale-published-member:%s' % what, dict(
+                            w, cell=stale[0], observed=xl.show(stale[1]),
+                            accepted=[xl.show(stale[2]) + ' (the value supplied in this call)']))
+                        return
                 want = world.call(world.compile(fresh), arg)
             else:
                 m = a if side == 'a' else b
